@@ -21,7 +21,7 @@ def load_spec(name):
     return m
 
 
-def splice_lexgen_util(spec, dst_dir):
+def splice_lexgen_util(spec, dst_dir, with_contracts=True):
     """copy the snapshot's lexgen_util crate to dst_dir and splice contracts + harness module into lib.rs.
     Returns a report: which function got which attributes, and the sha of each function's real text."""
     src_dir = os.path.join(C.snapshot(), "crates", "lexgen_util")
@@ -32,7 +32,7 @@ def splice_lexgen_util(spec, dst_dir):
     src = open(lib).read()
     edits, report = [], []
     import hashlib
-    for fn, attrs in spec.CONTRACTS.items():
+    for fn, attrs in (spec.CONTRACTS.items() if with_contracts else []):
         try:
             item = rs.find_item(src, "fn", fn, impl=spec.IMPL)
         except rs.ScanError as e:
@@ -45,7 +45,7 @@ def splice_lexgen_util(spec, dst_dir):
     for off, txt in sorted(edits):
         out.append(src[last:off]); out.append(txt); last = off
     out.append(src[last:])
-    new = "".join(out) + "\n" + spec.SPEC_MOD + "\n" + spec.HARNESS_MOD
+    new = "".join(out) + "\n" + spec.SPEC_MOD + "\n" + spec.HARNESS_MOD.replace("//@@CONTRACT_HARNESSES@@", spec.CONTRACT_HARNESSES if with_contracts else "")
     open(lib, "w").write(new)
     cargo = os.path.join(dst_dir, "Cargo.toml")
     t = open(cargo).read()
@@ -92,7 +92,7 @@ def parse_kani_output(out):
 
 
 def _kani_cmd(extra_flags):
-    return ["cargo", "kani", "-Z", "function-contracts", "-Z", "stubbing"] + list(extra_flags)
+    return ["cargo", "kani", "-Z", "function-contracts", "-Z", "stubbing", "--output-format", "terse"] + list(extra_flags)
 
 
 def run_cargo_kani(crate_dir, harnesses, extra_flags=(), timeout=3600, jobs=None, per_harness_flags=None):
